@@ -555,10 +555,18 @@ func (ex *Exec) evalCall(e *Expr, env *Env) Val {
 			if args[1].K != EStr {
 				unsup("contract: implements needs a type name string")
 			}
-			if iv.Dyn != nil {
-				return ex.boolV(ts.True())
+			var it *types.Interface
+			if i := strings.LastIndex(args[1].Name, "."); i > 0 {
+				if p := ex.lookupPkg(args[1].Name[:i], env); p != nil {
+					if o := p.Scope().Lookup(args[1].Name[i+1:]); o != nil {
+						it, _ = under(o.Type()).(*types.Interface)
+					}
+				}
 			}
-			return ex.boolV(ts.And(ts.Neq(iv.Tag, ts.Int(0)), ts.App("implements|"+args[1].Name, SBool, iv.Tag)))
+			if iv.Dyn != nil && it != nil {
+				return ex.boolV(ts.Bool(types.Implements(iv.DynT, it)))
+			}
+			return ex.boolV(ts.And(ts.Neq(iv.Tag, ts.Int(0)), ex.implementsTerm(iv.Tag, args[1].Name, it)))
 		case "held":
 			return ex.boolV(ts.Bool(ex.lockHeldExpr(args[0], env)))
 		}
